@@ -129,6 +129,10 @@ def excel_rows(source_path, sheet=1):
     assert sheet >= 1, "sheet=%r" % sheet
 
     location = errors.Location(source_path, has_cell=True)
+    if isinstance(source_path, str):
+        # Fail with the proper OSError in case the file does not exist or cannot be accessed.
+        with io.open(source_path, "rb"):
+            pass
     try:
         with xlrd.open_workbook(source_path) as book:
             if book.nsheets < sheet:
@@ -148,11 +152,11 @@ def excel_rows(source_path, sheet=1):
         raise errors.DataFormatError("cannot read Excel file: %s" % error, location)
     except UnicodeError as error:
         raise errors.DataFormatError("cannot decode Excel data: %s" % error, location)
-    except (EnvironmentError, errors.CutplaceError):
+    except errors.CutplaceError:
         raise
     except Exception as error:
         # A damaged file makes xlrd fail in many ways, for example zipfile.BadZipFile, zlib.error, KeyError,
-        # struct.error, IndexError or an XML parse error.
+        # struct.error, IndexError, an XML parse error or even OSError (from a decompressor).
         raise errors.DataFormatError("cannot read Excel file: %s: %s" % (type(error).__name__, error), location)
 
 
